@@ -7,7 +7,7 @@ from runner import Case, CaseSet
 ID = 'C17'
 OBLIGATIONS = ['Props/C17.v', 'Props/Tie/moves_tie.v', 'Props/Tie/charge_tie.v']
 RULE = ('parents: random class sequences (N 4..30) and degenerate ones (no charge, one charge type, all/all-but-one frozen) x '
-        'frozen sets (empty, random, prefix, everything) x chains of 1..8 moves drawn from {swapRes, swapRandChargeRes, full_shuffle, '
+        'frozen sets (empty, random, prefix, everything; handed over as sets of Python ints, of numpy ints, or lists) x chains of 1..8 moves drawn from {swapRes, swapRandChargeRes, full_shuffle, '
         'get_shuffled_sequence, get_permutant, permute_block_swap, permute_cluster_charges} with kappa() queries at random points '
         '(delta-max cached or not); every random choice comes from a seeded tape and is logged; non-trivial = distinct chain with '
         '>= 2 moves that changed the sequence')
@@ -33,6 +33,16 @@ def nl(xs):
 
 def _obs(c):
     return (c.seq, [int(x) for x in c.chargePattern], None if c.dmax == -1 else fnum(c.dmax))
+
+
+def _container(fz, variant):
+    """the caller may hand the frozen positions over in several forms"""
+    import numpy as np
+    if variant == 1:
+        return set(np.array(sorted(fz), dtype=int)) if fz else set()
+    if variant == 2:
+        return {np.int64(x) for x in fz}
+    return set(fz)
 
 
 def _chain(args):
@@ -62,7 +72,7 @@ def _chain(args):
                     mv = '(MSwap %s %s)' % (cnat(i), cnat(j))
                     moved_ok = {k for k in range(len(seq))} - {i, j}
                 elif kind == 'swaprand':
-                    child = cur.swapRandChargeRes(set(fz))
+                    child = cur.swapRandChargeRes(_container(fz, seed % 3))
                     log = tape.take()
                     if not log:
                         mv = '(MSwapRandSelf %s)' % nl(sorted(fz))
@@ -76,10 +86,10 @@ def _chain(args):
                     moved_ok = fz
                 elif kind in ('shuffle', 'shuffled_sequence', 'permutant'):
                     if kind == 'shuffle':
-                        child, use = cur.full_shuffle(set(fz)), fz
+                        child, use = cur.full_shuffle(_container(fz, seed % 3) if seed % 5 else sorted(fz)), fz
                     elif kind == 'shuffled_sequence':
                         sp = SequenceParameters(SeqObj=cur)
-                        child, use = sp.get_shuffled_sequence(set(fz)).SeqObj, fz
+                        child, use = sp.get_shuffled_sequence(_container(fz, (seed // 3) % 3)).SeqObj, fz
                     else:
                         pm = SequencePermutants(cur.seq)
                         pm.SeqObj = cur
